@@ -66,6 +66,12 @@ int main(int argc, char** argv)
         try { json j1 = csv::decode_csv<json>(t1, o), j2 = csv::decode_csv<json>(t2, o); if (j1 != j2) { if (!bad) first = "ignore_empty_values: the text ending in " + std::string(body) + " without a final line break decodes to " + j1.to_string() + ", with one to " + j2.to_string(); ++bad; } }
         catch (const jsoncons::json_exception&) {}
         catch (const std::exception& e) { if (!bad) first = std::string("foreign exception for a record of ignored empty values at the end of the input (") + body + "): " + e.what(); ++bad; } }
+    // column_types with a repeat entry (F56): every column of a row takes the repeated type, the events stay balanced
+    for (const char* types : {"float*", "string*", "integer,float*", "string,integer,float*"}) for (int mk = 1; mk <= 3; ++mk) for (int ncol = 1; ncol <= 4; ++ncol) { ++total;
+        std::string hdr, row; for (int c = 0; c < ncol; ++c) { hdr += (c ? "," : "") + std::string(1, (char)('a' + c)); row += (c ? "," : "") + std::to_string(c + 1); }
+        auto o = csv::csv_options{}.assume_header(true).column_types(types).mapping_kind((csv::csv_mapping_kind)mk);
+        try { json j = csv::decode_csv<json>(hdr + "\n" + row + "\n" + row + "\n", o); if (mk == 1 && (j.size() != 3 || j[1].size() != (size_t)ncol)) { if (!bad) first = "column_types " + std::string(types) + " with " + std::to_string(ncol) + " columns gives " + j.to_string(); ++bad; } }
+        catch (const std::exception& e) { if (!bad) first = "column_types " + std::string(types) + " with " + std::to_string(ncol) + " columns (mapping " + std::to_string(mk) + "): " + e.what(); ++bad; } }
     if (bad) VX_REPRO(bad << " of " << total << " csv round trips differ, first: " << first);
     VX_NOREPRO("all " << total << " csv round trips are the identity");
 }
